@@ -158,7 +158,7 @@ func jobs(seed uint64, thorough bool, keep func(i int) bool) []job {
 	n := 0
 	for _, d := range docs {
 		for ci, cfg := range allCfgs {
-			for _, en := range []string{enDoConfig, enDoAdd, enExecute, enPlan} {
+			for _, en := range []string{enDoConfig, enDoAdd, enExecute, enPlan, enPlanThenAdd} {
 				if !isDo(en) && reach(d.Class) < 4 && d.Class != clPlanErr {
 					continue
 				}
@@ -205,7 +205,7 @@ func jobs(seed uint64, thorough bool, keep func(i int) bool) []job {
 		if reach(d.Class) < 4 {
 			continue
 		}
-		for _, en := range []string{enExecute, enPlan} {
+		for _, en := range []string{enExecute, enPlan, enPlanThenAdd} {
 			for _, cfg := range [][]extSpec{cfg1, cfg2, cfgSame} {
 				for ei := range cfg {
 					for _, h := range reachable(d.Class, en) {
@@ -265,7 +265,7 @@ func jobs(seed uint64, thorough bool, keep func(i int) bool) []job {
 			}
 			en := doEntries[r.Intn(2)]
 			if reach(d.Class) >= 4 && r.Chance(30) {
-				en = []string{enExecute, enPlan}[r.Intn(2)]
+				en = []string{enExecute, enPlan, enPlanThenAdd}[r.Intn(3)]
 			}
 			hs := reachable(d.Class, en)
 			nf := r.Range(2, 4)
@@ -346,7 +346,11 @@ func invoke(st *caseState, ctx context.Context) (*graphql.Result, error) {
 	for i, e := range spec.Exts {
 		exts[i] = &iext{idx: i, spec: e, st: st}
 	}
-	schema, err := buildSchema(st, exts, spec.Entry == enDoAdd)
+	built := exts
+	if spec.Entry == enPlanThenAdd {
+		built = nil
+	}
+	schema, err := buildSchema(st, built, spec.Entry == enDoAdd)
 	if err != nil {
 		return nil, err
 	}
@@ -365,6 +369,9 @@ func invoke(st *caseState, ctx context.Context) (*graphql.Result, error) {
 	plan, perr := graphql.PlanQuery(&schema, doc, d.OpName)
 	if perr != nil {
 		return &graphql.Result{Errors: gqlerrors.FormatErrors(perr)}, nil
+	}
+	if spec.Entry == enPlanThenAdd {
+		schema.AddExtensions(exts...)
 	}
 	ep := graphql.ExecuteParams{Schema: schema, AST: doc, OperationName: d.OpName, Args: d.Vars, Context: ctx}
 	if spec.Entry == enPlanZero {
